@@ -1004,8 +1004,28 @@ func (e *Engine) cmpAtom(v *env, x *ast.BinaryExpr, k func(*env, bool)) {
 	} else if op == token.EQL && e.constLike(lx) == e.constLike(rx) && r < l {
 		l, r, lx, rx = r, l, rx, lx
 	}
+	// a declared-and-never-assigned nilable variable compared with nil is decided
+	if op == token.EQL && r == "nil" && strings.HasPrefix(l, "zero:") {
+		k(v, !neg)
+		return
+	}
+	if op == token.EQL && r == "nil" && (strings.HasPrefix(l, "&") || e.isNonNilExpr(lx)) {
+		k(v, neg)
+		return
+	}
 	key := l + " " + op.String() + " " + r
 	e.atom(v, Atom{Key: key, Expr: x, Op: op, L: l, R: r, LX: lx, RX: rx}, x.Pos(), func(v *env, b bool) { k(v, b != neg) })
+}
+
+// isNonNilExpr: composite literals, address-of and function literals are never nil.
+func (e *Engine) isNonNilExpr(x ast.Expr) bool {
+	switch y := ast.Unparen(x).(type) {
+	case *ast.CompositeLit, *ast.FuncLit:
+		return true
+	case *ast.UnaryExpr:
+		return y.Op == token.AND
+	}
+	return false
 }
 
 func (e *Engine) constLike(x ast.Expr) bool {
